@@ -58,7 +58,6 @@ def sidecarUnmodelled (env : Validate.Env) (g : SidecarV.Guards) (doc : SidecarV
     let refs := entries.flatMap SidecarV.findRefs
     if entries.any (fun s => HedVerif.Closed.defCount env s != 0) then some "definition in the sidecar"
     else if !refs.isEmpty && (entries.contains SidecarV.NA || refs.contains SidecarV.HED) then some "n/a spliced into a reference"
-    else if entries.any (HedVerif.Closed.poundTreeDiffers env) then some "pound signs counted on the tree"
     else if entries.any (fun s => Validate.unmodelledP env (HedVerif.Closed.parseNoRefs env s)) then some "value class pattern"
     else if full.any (fun s => Validate.unmodelledP env (Validate.parse env s)
                                || Validate.dupRaises env (Validate.parse env s).root0) then some "assembled string"
